@@ -63,8 +63,8 @@ impl FilterPredicate for ColumnPredicate {
         };
 
         match self.op {
-            CompareOp::Eq => val == self.value,
-            CompareOp::Ne => val != self.value,
+            CompareOp::Eq => values_equal(&val, &self.value),
+            CompareOp::Ne => !values_equal(&val, &self.value),
             CompareOp::Lt => compare_values(&val, &self.value) == Some(std::cmp::Ordering::Less),
             CompareOp::Le => {
                 matches!(
@@ -83,11 +83,25 @@ impl FilterPredicate for ColumnPredicate {
     }
 }
 
+/// Equality of two values; an integer and a float are equal when they denote the same
+/// number, as in the predicates of the pull operators (`x = 5` finds 5.0).
+fn values_equal(a: &Value, b: &Value) -> bool {
+    match (a, b) {
+        (Value::Int64(i), Value::Float64(f)) | (Value::Float64(f), Value::Int64(i)) => {
+            *i as f64 == *f
+        }
+        _ => a == b,
+    }
+}
+
 /// Helper to compare two values.
 fn compare_values(a: &Value, b: &Value) -> Option<std::cmp::Ordering> {
     match (a, b) {
         (Value::Int64(a), Value::Int64(b)) => Some(a.cmp(b)),
         (Value::Float64(a), Value::Float64(b)) => a.partial_cmp(b),
+        // integers and floats compare numerically
+        (Value::Int64(a), Value::Float64(b)) => (*a as f64).partial_cmp(b),
+        (Value::Float64(a), Value::Int64(b)) => a.partial_cmp(&(*b as f64)),
         (Value::String(a), Value::String(b)) => Some(a.cmp(b)),
         (Value::Bool(a), Value::Bool(b)) => Some(a.cmp(b)),
         _ => None,
@@ -283,5 +297,27 @@ mod tests {
         filter.push(chunk, &mut sink).unwrap();
 
         assert_eq!(sink.row_count(), 3);
+    }
+
+    #[test]
+    fn test_filter_compares_integers_and_floats_numerically() {
+        let values = [
+            Value::Int64(5),
+            Value::Float64(5.0),
+            Value::Float64(4.5),
+            Value::Int64(6),
+            Value::Null,
+        ];
+        let count = |op: CompareOp, constant: Value| {
+            let chunk = DataChunk::new(vec![ValueVector::from_values(&values)]);
+            let mut filter = FilterPushOperator::column_compare(0, op, constant);
+            let mut sink = CollectorSink::new();
+            filter.push(chunk, &mut sink).unwrap();
+            sink.row_count()
+        };
+        assert_eq!(count(CompareOp::Eq, Value::Int64(5)), 2);
+        assert_eq!(count(CompareOp::Ne, Value::Int64(5)), 3);
+        assert_eq!(count(CompareOp::Le, Value::Int64(5)), 3);
+        assert_eq!(count(CompareOp::Gt, Value::Float64(4.5)), 3);
     }
 }
